@@ -147,7 +147,7 @@ func runRabin(t *core.Tape, tier string, info *core.RunInfo) *core.Violation {
 				p.faulty, p.beh = "byz", map[string]bool{}
 				for b := 0; b < 1+t.Intn("cfg.faulty", 2); b++ {
 					k := rabinMenu[t.Intn("cfg.faulty", len(rabinMenu))]
-					if !kfGate && (k == "deal-undecryptable" || k == "deal-misdirected" || k == "deal-silent-to-one" || k == "deal-share-off-poly" || k == "just-missing" || k == "just-wrong-share") {
+					if !kfGate && (k == "deal-undecryptable" || k == "deal-misdirected" || k == "deal-silent-to-one") {
 						continue
 					}
 					p.beh[k] = true
